@@ -178,7 +178,9 @@ def punycodeEncodeP (p : Profile) (input : List Char) : Res :=
   outer p b input (input.length + 1) { n := 128, delta := 0, bias := 72, h := b, out := out }
 
 /-- Driver entry: release-profile arithmetic (what the shipped binaries do); `none` = `Err(())`.
-For every input shorter than 3854 characters the two profiles agree. -/
+For every input of at most 3855 characters the two profiles agree and the encoder succeeds
+(`Props/C01Ident.punycode_total_partial`); a 4001-character input on which they differ:
+`Lemmas/Idna.overflowWitness`. -/
 def punycodeEncode (input : List Char) : Option (List Char) :=
   match punycodeEncodeP .release input with
   | .ok o => some o
